@@ -30,7 +30,7 @@ m = {
     "setup_cmd": "/usr/bin/python3 bin/check ALL --build-only",
     "hooks": {"guard": "OPENTELEMETRY_CPP_VERIF",
               "enable": "no source hooks are used: checks recompile /repo's sources; Engine-A builds force-include engine/shim/vf_std.h, which token-renames std::atomic/mutex/condition_variable/thread/... to scheduler-backed look-alikes; clock_gettime is interposed at link time",
-              "baseline_off_cmd": "ctest --test-dir /repo/_build -j8 --timeout 900",
+              "baseline_off_cmd": "cmake --build /repo/_build -j16 && ctest --test-dir /repo/_build -j8 --timeout 900",
               "source_commits": [], "add_only": True},
     "engines": [
         {"name": "sched", "path": "engine/sched engine/shim engine/core", "serves_properties": sorted(k for k, v in claims.CLAIMS.items() if "sched" in v["engine"]),
